@@ -54,6 +54,8 @@ class _Recorder:
         self.budget = budget
         self.lcds: List[LCD] = []
         self.sleep_calls: List[float] = []
+        self.namespace: Optional[dict] = None
+        self.live_samples: List[int] = []  # live list/str data at the end of setup and of each pass
 
     # -- clock
     def sleep_seconds(self, seconds: float) -> None:
@@ -99,7 +101,19 @@ class _Recorder:
         self.ain_pos[pin] = pos + 1
         return int(seq[min(pos, len(seq) - 1)])
 
+    def sample_live(self) -> None:
+        total = 0
+        for key, value in (self.namespace or {}).items():
+            if key.startswith("__"):
+                continue
+            if isinstance(value, (list, str)):
+                total += len(value)
+                if isinstance(value, list):
+                    total += sum(len(x) for x in value if isinstance(x, str))
+        self.live_samples.append(total)
+
     def pass_hook(self) -> None:
+        self.sample_live()
         k = self.phase + 1
         if k >= self.passes:
             raise StopSimulation()
@@ -352,6 +366,7 @@ def run_host(
     code = compile(tree, "<dst-script>", "exec")
 
     namespace = {"__name__": "__main__", "__dst_pass__": rec.pass_hook}
+    rec.namespace = namespace
 
     # sensor constructors with world-driven providers; Core helpers with loggers
     saved = (_sens.Button, _sens.Potentiometer, _core.digital_write, _core.analog_write)
@@ -396,6 +411,7 @@ def run_host(
         sys.settrace(old_trace)
         _CURRENT = None
         _sens.Button, _sens.Potentiometer, _core.digital_write, _core.analog_write = saved
+    rec.sample_live()
     rec.trace.add("phase", rec.phase, "end", rec.now_ms)
     rec.trace.end_ms = rec.now_ms
     return HostResult(rec.trace, error, namespace if keep_namespace else None, rec)
